@@ -273,6 +273,11 @@ func (s *Service) UnmarshalJSON(data []byte) error {
 	}
 	s.rollout = NewLoadBalancer(rolloutTargets)
 	s.rollout.MarkAllHealthy()
+	if len(rolloutTargets) == 0 {
+		// No rollout targets were saved. Don't keep an empty load balancer, as
+		// that would make the service look like it has a rollout deployed.
+		s.rollout = nil
+	}
 
 	return s.initialize()
 }
